@@ -5,11 +5,13 @@
    NOT provable here: that rustc accepts the emitted text and that the executable behaves as [ir_run] says — that is
    the rustc run of tools/hv/compchecks.py, which also compares the emitted structure with the IR.
    compiled_sound/complete cover levels 0 and 1 (no serialised pre-state; any container kind); the level-2 theorems cover
-   the serialised pre-state under explicit premises on the pre-executed state — [partial]. *)
+   the serialised pre-state, first under explicit premises on the pre-executed state, then unconditionally for what the
+   optimiser returns; C03_emitted_program_sound/complete are the model-level statement of the property for every level.
+   [_partial] marks statements for a sub-case; what stays outside Coq altogether is rustc (see above). *)
 From Coq Require Import List NArith Bool.
 Import ListNotations.
-From HV Require Import Model.Parse Model.Exec Model.Opt Model.Compile Proofs.OptSpec Proofs.CompSpec Proofs.CoroSpec Proofs.Comp2Spec Proofs.Comp3Spec.
-From HV Require Proofs.CompProofs Proofs.CompLevel2 Proofs.Comp3Proofs.
+From HV Require Import Model.Parse Model.Exec Model.Opt Model.Compile Proofs.OptSpec Proofs.CompSpec Proofs.CoroSpec Proofs.Comp2Spec Proofs.Comp3Spec Proofs.Comp4Spec.
+From HV Require Proofs.CompProofs Proofs.CompLevel2 Proofs.Comp3Proofs Proofs.Comp4Proofs.
 Open Scope N_scope.
 
 (* the generated if/else tree runs block i and only it when state = i, for every number of blocks *)
@@ -88,6 +90,52 @@ Theorem C03_compiled_level2_of_optimized_partial : forall code input r fuel, sma
   end.
 Proof. exact Comp3Proofs.compiled2_optimized. Qed.
 Print Assumptions C03_compiled_level2_of_optimized_partial.
+
+(* the NaN premise removed: a NaN of negative sign (reachable: negate a NaN) is printed as the NaN text and read back as the
+   canonical NaN, and no command distinguishes the two (simulation up to the representation of NaN); both directions *)
+Theorem C03_compiled_level2_sound : forall code input r fuel, small_code (map xcode_of_ucode code) -> input_ok input ->
+  optimize_prog all_fixed code 2 [] = OptOk r -> orest r <> [] ->
+  match run_inc fuel (olog r) (orest r) (with_input (ostate r) input) with
+  | FFuel _ _ => True
+  | FPanic _ => True
+  | x => exists fuel', ibeh (ir_run fuel' (build_ir true 2 (ostate r) (olog r) (orest r)) input) = beh x
+  end.
+Proof. exact Comp4Proofs.compiled2_opt_sound. Qed.
+Print Assumptions C03_compiled_level2_sound.
+Theorem C03_compiled_level2_complete : forall code input r fuel, small_code (map xcode_of_ucode code) -> input_ok input ->
+  optimize_prog all_fixed code 2 [] = OptOk r -> orest r <> [] ->
+  match ir_run fuel (build_ir true 2 (ostate r) (olog r) (orest r)) input with
+  | IFuel _ => True
+  | IBadState => False
+  | y => exists fuel', beh (run_inc fuel' (olog r) (orest r) (with_input (ostate r) input)) = ibeh y
+  end.
+Proof. exact Comp4Proofs.compiled2_opt_complete. Qed.
+Print Assumptions C03_compiled_level2_complete.
+
+(* THE PROPERTY at model level: for every program the parser can yield (kinds 0..5, counts below 2^63), every level and every
+   input, whatever app/build.rs hands to build_source (compile_prog) behaves like interpreting the program unoptimised:
+   every finished level-0 run (normal end, exit c, unencodable value n — with all text written) is matched by the emitted
+   program, and conversely; the emitted program never reaches an undefined dispatch state *)
+Theorem C03_emitted_program_sound : forall level code input p fuel, level <= 2 -> kinds_ok code ->
+  small_code (map xcode_of_ucode code) -> input_ok input ->
+  compile_prog all_fixed true code level = Some p ->
+  match run_level all_fixed fuel code 0 input with
+  | FFuel _ _ => True
+  | FPanic _ => True
+  | x => exists fuel', ibeh (ir_run fuel' p input) = beh x
+  end.
+Proof. exact Comp4Proofs.compiled_end_to_end_sound. Qed.
+Print Assumptions C03_emitted_program_sound.
+Theorem C03_emitted_program_complete : forall level code input p fuel, level <= 2 -> kinds_ok code ->
+  small_code (map xcode_of_ucode code) -> input_ok input ->
+  compile_prog all_fixed true code level = Some p ->
+  match ir_run fuel p input with
+  | IFuel _ => True
+  | IBadState => False
+  | y => exists fuel', beh (run_level all_fixed fuel' code 0 input) = ibeh y
+  end.
+Proof. exact Comp4Proofs.compiled_end_to_end_complete. Qed.
+Print Assumptions C03_emitted_program_complete.
 
 (* the pinned compiler (before fix 7d19713) resumed a level-2 program at the wrong block; the repaired one agrees
    with the interpreter on the witness *)
